@@ -39,9 +39,13 @@ ASSUMPTIONS = [
     "the model is written for the code as repaired by fixes/C11-phase2-aspect.diff",
     "absolute scale: dies in other units (binary factors: exact, compared with the model up to n = 130; decimal factors and larger "
     "counts: direct oracle only, the pieces must lie inside the region they were cut from within 1e-9 of the die's extent, overlap by "
-    "at most (1e-9 extent)^2 and cover each former region within 1e-9 of its area; counts, tags and aspect ratios exactly on the floats); "
+    "at most (1e-9 extent)^2 and cover each former region within 1e-9 of its area; counts and tags exactly, aspect ratios within a "
+    "relative 1e-9 of the limit (exactly for binary factors): the sides of a piece cut from decimal coordinates are one ulp off the exact halves); "
     "process state: when another die was built first (it defines the class-wide Rectangle tolerances) or the coordinates are decimal, the "
-    "refinement is judged only if the regions it starts from do not overlap (how a die is decomposed under foreign tolerances is C01 / C20)",
+    "refinement is judged only if the regions it starts from do not overlap (how a die is decomposed under foreign tolerances is C01 / C20); "
+    "the other die is up to 10^13 times larger or smaller (foreign distance tolerance up to 100 times the judged die's extent: its "
+    "constructor then mostly refuses it - not judged here - or builds lists that do not tile it: a history from such a start is compared "
+    "step by step with trace_ok, the start invariant die_inv is not claimed); refinement itself reads no tolerance and is judged exactly",
     "histories: the model of a call is a function of the object's five lists before the call and of the call's own arguments "
     "(DieOps.step_ok); a history is cut before the first split whose rounded aspect-ratio test would decide differently from the "
     "exact quotient (float-boundary, counted); a history whose grid cells are not binary fractions is compared step by step "
@@ -237,6 +241,13 @@ SCALES_DY = [F(1, 1024), F(1, 1024), F(1, 128), F(1, 16), F(1), F(64), F(1024), 
 SCALES_DEC = [F(1, 1000), F(1, 1000), F(1, 100), F(1, 100), F(1, 10), F(10), F(1000), F(10 ** 6)]
 BIG_N = [64, 100, 128, 256, 300, 512, 600, 1000, 1024]
 PRE_FACTORS = [F(1, 1000), F(1, 8), F(1), F(8), F(1000), F(1000), F(1000), F(10 ** 6)]
+# FAR pre-dies: the class-wide distance tolerance is min(W, H) * 1e-11 of the FIRST die of the process, so a die 10^9 .. 10^13
+# times larger leaves a tolerance of 1% .. 100 times the judged die's own extent (and one as much smaller a tolerance far
+# below one ulp of its coordinates); refinement itself reads no tolerance, so it is judged exactly as before
+# (the judged die's constructor accepts an empty die while that tolerance stays below its shorter side: factors 10^10 ..
+# 5 * 10^10 are where a die is still built and the foreign tolerance is of the size of the pieces a refinement makes)
+PRE_FAR = [F(10) ** 9, F(10) ** 10, 2 * F(10) ** 10, 2 * F(10) ** 10, 5 * F(10) ** 10, 5 * F(10) ** 10, F(10) ** 11, F(10) ** 11,
+           F(10) ** 12, F(10) ** 13]
 
 
 def scale_rect(d, s):
@@ -249,10 +260,15 @@ def scaled(case, s):
                 fixed=[scale_rect(d, s) for d in case["fixed"]], scale=s)
 
 
-def gen_pre(rng, case):
+def gen_pre(rng, case, far=False):
     """another die built (and sometimes refined) FIRST in the same process: the first design of a process defines the
-    class-wide tolerances of Rectangle, here from a die up to 1000 times (seldom 10^6 times) larger or smaller"""
+    class-wide tolerances of Rectangle, here from a die up to 1000 times (seldom 10^6 times) larger or smaller, or (a third
+    of them, and every `far` one) 10^9 .. 10^13 times larger or smaller"""
     f = rng.choice(PRE_FACTORS)
+    if far or rng.random() < 0.3:
+        f = rng.choice(PRE_FAR)
+        if rng.random() < (0.25 if far else 0.4):
+            f = 1 / f
     pre = {"W": case["W"] * f * rng.choice([1, 1, 2, 3]), "H": case["H"] * f * rng.choice([1, 1, 2, 3])}
     if rng.random() < 0.4:
         pre["split"] = [rng.choice([1.5, 2.0, 3.0]), rng.choice([1, 4, 16])]
@@ -272,6 +288,43 @@ def gen_scaled(rng):
     return case
 
 
+def gen_far(rng):
+    """a small die (mostly empty: a die with regions is seldom accepted by its constructor under a tolerance of its own
+    size) refined once or through a short history after a die 10^9 .. 10^13 times larger (a quarter: smaller) was built.
+    Mostly limits below 2 (where halving a compliant region gives a non-compliant one that must be split again) and, in
+    more than half of the cases, a count that drives the pieces below the foreign distance tolerance."""
+    if rng.random() < 0.6:
+        den = rng.choice([1, 1, 2, 4])
+        W, H = F(rng.choice([1, 2, 3, 5, 8, 12, 30, 30, 48, 50, 64]), den), F(rng.choice([1, 2, 3, 5, 8, 12, 30, 30, 48, 50, 64]), den)
+        regions, fixed = [], []
+    else:
+        W, H, regions, fixed = gen_layout(rng, maxk=2)
+    rlim = lambda: rng.choice([1.42, 1.5, 1.5, 1.7]) if rng.random() < 0.75 else gen_r(rng)
+    hist = rng.random() < 0.3
+    if hist:
+        ops = [["split", rlim(), rng.choice([1, 2, 3, 4, 8])]]
+        if rng.random() < 0.5:
+            ops.append(["read"])
+        ops.append(["split", rlim(), rng.choice([2, 5, 8, 16, 32])])
+        case = {"kind": "hist", "W": W, "H": H, "regions": regions, "fixed": fixed, "ops": ops,
+                "dieform": "text" if regions else rng.choice(["string", "dict", "text"]), "style": gen_style(rng)}
+    else:
+        case = {"kind": "split", "W": W, "H": H, "regions": regions, "fixed": fixed, "r": rlim(),
+                "n": rng.choice([1, 2, 3, 4, 5, 8, 16, 32, 64]), "style": gen_style(rng)}
+    case = scaled(case, rng.choice(SCALES_DY + [F(1)] * 12))
+    case["pre"] = gen_pre(rng, case, far=True)
+    # the tolerance the pre-die leaves (Die.__init__: min(W, H) * 10e-12), and the count at which pieces get that thin
+    eps = min(case["pre"]["W"], case["pre"]["H"]) / 10 ** 11
+    if eps < min(case["W"], case["H"]) and rng.random() < 0.7:
+        deep = int(min(F(1024), 2 * case["W"] * case["H"] / (eps * eps))) + 1
+        deep = min(1024, deep * rng.choice([1, 1, 2, 4]))
+        if hist:
+            case["ops"][-1][2] = min(deep, 128)
+        else:
+            case["n"] = deep
+    return case
+
+
 def oracle_only(case):
     """cases decided by the direct oracle alone: decimal scale factors (positions k*W/2^j are rounded) and counts beyond
     what the model comparison is run for"""
@@ -283,6 +336,8 @@ def gen_case(rng):
     x = rng.random()
     if x < 0.07:
         return gen_scaled(rng)
+    if x < 0.13:
+        return gen_far(rng)
     case = gen_case_(rng)
     if case["kind"] == "hist" and rng.random() < 0.12:
         case = scaled(case, rng.choice(SCALES_DY))
@@ -584,10 +639,26 @@ def judged_events(case, obs):
     return evs
 
 
+def state_tiles(st):
+    """the lists of a die state tile its bounding box (exactly)"""
+    bb = box(st["bbox"])
+    rs = [box(d) for k in ("spec", "ground", "blockages", "fixed") for d in st[k]]
+    if any(not (b[2] > b[0] and b[3] > b[1] and inside(b, bb)) for b in rs):
+        return False
+    if overlapping_pair(rs) is not None:
+        return False
+    return sum(((b[2] - b[0]) * (b[3] - b[1]) for b in rs), F(0)) == (bb[2] - bb[0]) * (bb[3] - bb[1])
+
+
 def hist_to_coq(case, obs):
     evs = judged_events(case, obs)
     D0 = gdie(obs["start"])
     tr = glist([gevent(ev) for ev in evs])
+    if case.get("pre") and not state_tiles(obs["start"]):
+        # a die its constructor decomposed under another design's tolerances into lists that do not tile it (C01's / C20's
+        # subject): the steps are compared with the per-call model as always, the invariant of the start is not claimed
+        SKIPPED["foreign-start"] = SKIPPED.get("foreign-start", 0) + 1
+        return f"trace_ok {D0} {tr}"
     # (floorplanning_rectangles() after every step is compared with the lists by the direct oracle; the read events carry it)
     if all(grid_exact(case, ev["op"]) for ev in evs if ev["op"][0] == "grid" and ev["status"] == "ok"):
         return f"history_ok {D0} {tr}"
@@ -705,7 +776,9 @@ def check_refinement(before, after, r, n, rel=F(0)):
         if abs(got[i] - area) > rel * area:
             return "the refined regions do not cover a former refinable region exactly"
     for a in after:
-        if aspect(a) > core.frac(r):
+        # decimal coordinates: the sides of a piece are differences of rounded positions, one ulp off the exact halves, so the
+        # exact quotient of the two floats may exceed a limit the code's rounded quotient meets (0.03 x 0.02: 1.5000000000000002)
+        if aspect(a) > core.frac(r) * (1 + rel):
             return f"aspect ratio {float(aspect(a))} exceeds the limit {float(r)}"
     return None
 
@@ -920,7 +993,10 @@ def run(ctx, out, replay=None):
                 "the histories): the same layouts in other units - binary factors 2^-10 .. 2^20 (exact; model comparison up to n = 130) "
                 "and decimal factors 10^-3 .. 10^6 (direct oracle, positions within 1e-9 of the die) - refined into up to 1024 regions; "
                 "PROCESS STATE (half of those, a tenth of the others): another die, up to 1000 times (seldom 10^6 times) larger or "
-                "smaller, is built and sometimes refined first in the same process, so the class-wide Rectangle tolerances come from it")
+                "smaller, is built and sometimes refined first in the same process, so the class-wide Rectangle tolerances come from it; "
+                "a third of these pre-dies, and those of a further 6% of the cases (small, mostly empty dies; single splits and short "
+                "histories), are 10^9 .. 10^13 times larger or smaller: the foreign distance tolerance is then 1% .. 100 times the "
+                "judged die's own extent (or far below one ulp); judged by the same exact oracle")
     cases = []
     if replay and "case" in replay:
         cases.append(fr.unjson(replay["case"]))
@@ -932,9 +1008,16 @@ def run(ctx, out, replay=None):
             out.count("scale:" + ("binary" if dyadic(c["scale"]) else "decimal") + ("/oracle-only" if oracle_only(c) else ""))
         if c.get("pre"):
             out.count("after-another-die")
+            ratio = max(F(c["pre"]["W"]) / F(c["W"]), F(c["pre"]["H"]) / F(c["H"]))
+            small = min(F(c["pre"]["W"]) / F(c["W"]), F(c["pre"]["H"]) / F(c["H"]))
+            if ratio >= 10 ** 9:
+                out.count("after-a-die-1e9..1e13-times-larger")
+            elif small <= F(1, 10 ** 9):
+                out.count("after-a-die-1e9..1e13-times-smaller")
     fr.run_cases(ctx, out, cases, run_impl, to_coq, oracle, failure_key, HEADER,
                  dist_key=dist_key, nontrivial=nontrivial, shard=40, shrink=shrink)
     out.extra["skipped_float_boundary_cases"] = SKIPPED["float-boundary"]
+    out.extra["histories_from_a_start_that_does_not_tile_after_another_die"] = SKIPPED.get("foreign-start", 0)
     greedy_evidence(ctx, out, cases[:160 if ctx.quick() else 1500])
 
 
